@@ -19,13 +19,22 @@ C07 = {"reply-after-flush-ack", "flushed-reply-answers-new-request", "request-on
 C11 = {"stop-called-twice", "stop-not-called-once", "inflight-not-cancelled"}
 
 
-def behaviour_to_scenario(name, labels, repeat=0):
-    """labels: list of (act, req) along one TLC behaviour."""
+def behaviour_to_scenario(name, labels, repeat=0, send_at_read=False):
+    """labels: list of (act, req) along one TLC behaviour.
+    send_at_read: a request is sent at the step where the model's reader reads it, not where the model's client
+    queued it - the real reader goroutine reads a frame as soon as it is there, so that is when it enters the server."""
     steps, nwr, block = [], 0, 0
+    pending = {}
     for act, rq in labels:
         a, i = act["a"], act["i"]
         if a == "send":
-            steps.append({"a": "send", "i": i, "tag": rq["tag"], "kind": rq["kind"], "old": rq["old"]})
+            st = {"a": "send", "i": i, "tag": rq["tag"], "kind": rq["kind"], "old": rq["old"]}
+            if send_at_read:
+                pending[i] = st
+            else:
+                steps.append(st)
+        elif a == "rdr.read" and i in pending:
+            steps.append(pending.pop(i))
         elif a == "loop.dispatch":
             steps.append({"a": "await_enter", "i": i})
         elif a == "h.done":
@@ -40,6 +49,7 @@ def behaviour_to_scenario(name, labels, repeat=0):
             steps.append({"a": "fault", "kind": "write"})
         elif a == "fault.ctx":
             steps.append({"a": "fault", "kind": "ctx"})
+    steps += [pending[i] for i in sorted(pending)]
     sc = {"name": name, "steps": steps}
     if block:
         sc["block_write"] = block
@@ -62,7 +72,7 @@ def simulate(cfg, num, depth):
     return behs, r
 
 
-def cex_scenario(cfg, name, repeat):
+def cex_scenario(cfg, name, repeat, send_at_read=False):
     """The counterexample TLC finds on the as-is (defect toggled on) model, as a scenario."""
     r = tlc("server", "ServeImpl", cfg, workers=4, timeout=600, dump_trace=True)
     if r.violation is None or not r.trace_json:
@@ -73,7 +83,7 @@ def cex_scenario(cfg, name, repeat):
         i = s["act"]["i"]
         rq = s["req"][i - 1] if 1 <= i <= len(s["req"]) else {"tag": 0, "kind": "none", "old": 0}
         labels.append((s["act"], rq))
-    return behaviour_to_scenario(name, labels, repeat), r
+    return behaviour_to_scenario(name, labels, repeat, send_at_read), r
 
 
 def slow_scenario():
@@ -175,7 +185,7 @@ def _run(pid, tier, classes, families, extra=None):
         ck.cov["tlc_runs"].append({"cfg": "ServeImpl_goal_flushfault.cfg", "goal_reached_via": rr.violation})
         scs.append(sc)
     if "goals07" in families:
-        sc, rr = cex_scenario("ServeImpl_goal_flushblocked.cfg", "tlc-goal-flush-behind-blocked-reply", rep)
+        sc, rr = cex_scenario("ServeImpl_goal_flushblocked.cfg", "tlc-goal-flush-behind-blocked-reply", 4 * rep, send_at_read=True)
         sc["paced"] = True      # the writer stays blocked: the client reads nothing until the end of the scenario
         scs.append(sc)
         ck.cov["tlc_runs"].append({"cfg": "ServeImpl_goal_flushblocked.cfg", "goal_reached_via": rr.violation})
@@ -183,7 +193,7 @@ def _run(pid, tier, classes, families, extra=None):
         behs, _ = simulate("ServeSim_nofault.cfg", 120 if q else 1500, 45)
         scs += [behaviour_to_scenario("sim-nofault-%d" % i, b, 2 if q else 3) for i, b in enumerate(behs)]
         # the same behaviours with a client that reads each reply only where the model's writer completes its write
-        scs += [dict(behaviour_to_scenario("sim-paced-%d" % i, b, 1 if q else 2), paced=True) for i, b in enumerate(behs) if i % 2 == 0]
+        scs += [dict(behaviour_to_scenario("sim-paced-%d" % i, b, 1 if q else 2, send_at_read=True), paced=True) for i, b in enumerate(behs) if i % 2 == 0]
         scs.append(kinds_scenario())
         scs.append(slow_scenario())
         scs.append(many_inflight_scenario(pid))
